@@ -8,6 +8,9 @@ Every such call is also made on a circuit built from scratch with the public sta
    normally returned placement of a state inside the domain (legal_common.std_design); a failure must leave the placement; a
    failure on a trivially feasible state is a violation;
  * metamorphic (C++ against C++): outcome and placement of the object with the history = those of the fresh circuit.
+The setters include setupRows (the rows rebuilt as a whole: same area with the other initial / alternating orientation, smaller / larger /
+shifted areas, seldom half / double row height) next to setRows, so that whatever a Circuit keeps about its rows between two calls is
+exercised through both ways of replacing them.  res["orient_fail"] holds C04's clause (orient_okb) for the same results (checks/c04.py).
 Library: run_stage_sequences(seed, count, extra_cases) -> dict; report(ctx, res); replay_case(case)."""
 from tools import common
 from checks import circuit_sequences as cs
@@ -24,7 +27,8 @@ def _orig(ctoks):
 def run_stage_sequences(seed, count, extra_cases=()):
     precs, anomalies, stats = cs.run_placement_sequences(seed, count, extra_cases)
     driver = common.build_driver()
-    res = {"stats": stats, "anomalies": anomalies, "illegal": [], "failure_moved": [], "trivial_failed": [], "differ": [],
+    res = {"stats": stats, "anomalies": anomalies, "illegal": [], "failure_moved": [], "trivial_failed": [], "differ": [], "orient_fail": [],
+           "polarised_returned": 0, "setup_rows_before_call": 0,
            "in_domain_calls": 0, "returned_in_domain": 0, "calls_after_an_earlier_stage": 0, "moved_cells": 0, "outcomes": {},
            "cases": sorted(set(r.case for r in precs))[:2]}
     linp, lmap = [], []
@@ -65,6 +69,13 @@ def run_stage_sequences(seed, count, extra_cases=()):
                 res["moved_cells"] += mpl != orig
                 if f is None or f[:1] != ["1"]:
                     res["illegal"].append((r, "%s returned normally on a circuit with a history of public edits, but the placement is not legal (proved checker legalb = false)" % STAGE[r.op]))
+                # C04's clause on the same result (used by checks/c04.py): orient_okb against the rows the circuit holds right before the call
+                cells, _ = lc.cells_of(r.state)
+                res["polarised_returned"] += any(c[5] != 0 and not c[6] for c in cells)
+                res["setup_rows_before_call"] += any("setupRows" in t for t in cs.steps_text(r.case, r.step))
+                if f is None or len(f) < 2 or f[1] != "1":
+                    res["orient_fail"].append((r, mpl, "%s returned normally on a circuit with a history of public edits, but a cell has an orientation its polarity does not "
+                                                       "prescribe for the row (of the circuit's rows at the moment of the call) it sits on (proved checker orient_okb = false)" % STAGE[r.op]))
             else:
                 if mpl is not None and mpl != orig:
                     res["failure_moved"].append((r, "%s raised an error (%s) on a circuit with a history of public edits but left a modified placement" % (STAGE[r.op], mk)))
@@ -105,6 +116,7 @@ def report(ctx, res):
 def summary(res):
     d = dict(res["stats"])
     d.update({k: res[k] for k in ("in_domain_calls", "returned_in_domain", "calls_after_an_earlier_stage", "outcomes")})
+    d["returned_in_domain_calls_with_a_setupRows_step_before_them"] = res["setup_rows_before_call"]
     d.update({"returned_placements_moving_a_cell": res["moved_cells"], "illegal_results": len(res["illegal"]), "failures_leaving_a_modified_placement": len(res["failure_moved"]),
               "failures_on_trivially_feasible_states": len(res["trivial_failed"]), "results_differing_from_fresh_circuit": len(res["differ"]),
               "steps_not_run_through": len(res["anomalies"])})
